@@ -291,7 +291,12 @@ func (x *Exec) frameObligations(st *State, env *Env) {
 		for _, idx := range ml.precise[name] {
 			excl = append(excl, Neq(i, idx))
 		}
-		goal := Forall([]Term{i}, Implies(And(append([]Term{Ge(i, TZero), Le(i, x.entry.alloc)}, excl...)...), Eq(Select(cur, i), Select(base, i))))
+		// reference 0 is nil: no object, holds nothing (ghost arrays are keyed by ids, where 0 is a key like any other)
+		lo := Gt(i, TZero)
+		if strings.HasPrefix(name, "ghost.") {
+			lo = Ge(i, TZero)
+		}
+		goal := Forall([]Term{i}, Implies(And(append([]Term{lo, Le(i, x.entry.alloc)}, excl...)...), Eq(Select(cur, i), Select(base, i))))
 		ftags := append(append([]string(nil), x.spec.Tags...), x.spec.ModTags...)
 		st.oblige("frame:"+name, ftags, goal, "only the declared frame is modified ("+name+")")
 	}
